@@ -67,6 +67,7 @@ def stateful(ctx: Ctx, res: Result, stream: str, progs, oracle_names, stop_on_er
         store[id(prog)] = obs
         return obs
 
+    poke_helper_results(progs)
     runs, mism, stats = corr.run_stateful(progs, observers_factory=factory, stop_on_error=stop_on_error, strict_value=strict_value)
     res.programs += len(progs)
     res.traces_validated += stats["ops_compared"]
@@ -89,6 +90,46 @@ def stateful(ctx: Ctx, res: Result, stream: str, progs, oracle_names, stop_on_er
                 "stop_on_error": stop_on_error, "strict_value": strict_value}
         res.corr.append(Finding(stream, case, f"correspondence break at op {m.op_index}: " + " | ".join(m.diffs[:3])))
     return runs
+
+
+def poke_helper_results(progs):
+    """Public helpers return fresh objects; a script may consume or edit them (work a list of partial volumes off with
+    pop(), re-map an index dict).  Before a stream runs, the harness calls the helpers with the arguments the programs
+    are going to cause and edits what it got back: a memo that hands out one shared object would poison the run."""
+    from robotools.worklists.utils import partition_volume
+    from robotools import make_well_index_dict
+    seen = set()
+    for p in progs:
+        M = p["cfg"]["max_volume"]
+        Ms = {M} | {op["cfg"]["max_volume"] for op in p.get("ops", []) if op["op"] == "reconfigure"}
+        for op in p.get("ops", []):
+            if op["op"] == "transfer":
+                for v in O.flatF(op["vols"]):
+                    for m in Ms:
+                        key = (v, m)
+                        if key in seen or not (isinstance(v, F) and v > 0):
+                            continue
+                        seen.add(key)
+                        for mm in ({int(m), float(m)} if F(m).denominator == 1 else {float(m)}):
+                            try:
+                                out = partition_volume(float(v), max_volume=mm)
+                                while out:
+                                    out.pop(0)
+                            except Exception:  # noqa: BLE001
+                                pass
+        for spec in p.get("labs", []):
+            try:
+                R = int(spec["vrows"]) if spec.get("vrows") is not None else int(spec["rows"])
+                C = int(spec["cols"])
+            except Exception:  # noqa: BLE001
+                continue
+            if ("idx", R, C) not in seen and 0 < R <= 26 and 0 < C:
+                seen.add(("idx", R, C))
+                d = make_well_index_dict(R, C)
+                for k in list(d)[: max(1, len(d) // 2)]:
+                    d[k] = (0, 0)
+                if d:
+                    d.pop(next(iter(d)))
 
 
 def corpus_progs(ctx, stream=None):
@@ -164,8 +205,18 @@ def off_envelope_limits(ctx, res):
                 res.viol.append(Finding("off-envelope", case, msg, f"C02:off-envelope:{kind}"))
     res.extra["off_envelope_calls"] = n * 6
     # decimal boundary grid: values that are NOT dyadic, where two float roundings of "the same" comparison can differ
-    def one(kind, v0, r, mn, mx):
-        L = impl.Labware("L", 1, 1, min_volume=mn, max_volume=mx, initial_volumes=v0)
+    import numpy as _np
+    def one(kind, v0, r, mn, mx, dtype=None):
+        if dtype is not None:
+            # initial volumes handed in as a single-/half-precision array: the tracked state is still what the limits
+            # are checked against (a state kept in a narrower type would round across a limit after the check)
+            arr = _np.array([[v0]], dtype=dtype)
+            if not _np.isfinite(arr).all() or float(arr[0, 0]) > mx or float(arr[0, 0]) < 0:
+                return
+            L = impl.Labware("L", 1, 1, min_volume=mn, max_volume=mx, initial_volumes=arr)
+            v0 = float(L.volumes[0, 0])
+        else:
+            L = impl.Labware("L", 1, 1, min_volume=mn, max_volume=mx, initial_volumes=v0)
         exc = None
         try:
             getattr(L, kind)("A01", r)
@@ -191,12 +242,14 @@ def off_envelope_limits(ctx, res):
                 if a > 0:
                     one("remove", a / 10, b / 10, c / 10, 1000.0)
                     one("remove", a / 100, b / 100, c / 100, 1000.0)
+                    one("remove", a / 10, b / 10, c / 10, 1000.0, dtype=_np.float32 if (a + b) % 2 else _np.float16)
     for mx10 in (3, 7, 11, 33, 1001):
         for b in range(1, min(mx10, 100), 1 if ctx.tier == "thorough" else 3):
             for d in (-1, 0, 1):
                 a = mx10 - b + d
                 if a >= 0:
                     one("add", a / 10, b / 10, 0.0, mx10 / 10)
+                    one("add", a / 10, b / 10, 0.0, mx10 / 10, dtype=_np.float32 if (a + b) % 2 else _np.float16)
     for v0 in (1e16, 1e20, 1e300):
         for mn in (1.0, 100.0, 0.1):
             for r in (v0, v0 - mn, v0 / 2, math.nextafter(v0, 0)):
@@ -269,7 +322,7 @@ def run_C07(ctx):
 def run_C11(ctx):
     res = Result()
     rng = ctx.rng
-    prof = {"p_fail": 0.05, "nops": (2, 10), "kinds": ["transfer"] * 4 + ["aspirate", "dispense", "distribute", "add", "remove", "misc"], "p_dist_alias": 0.2}
+    prof = {"p_fail": 0.05, "nops": (2, 10), "kinds": ["transfer"] * 4 + ["aspirate", "dispense", "distribute", "add", "remove", "misc"], "p_dist_alias": 0.2, "p_same_name": 0.2}
     progs = corpus_progs(ctx) + [G.gen_worklist_program(rng, prof) for _ in range(ctx.n(220))]
     stateful(ctx, res, "history", progs, ["history"])
     # a refused operation in the middle of a script that goes on: earlier history entries must stay what they were
@@ -285,7 +338,7 @@ def run_C16(ctx):
     and EVO vs Fluent directly."""
     res = Result()
     rng = ctx.rng
-    prof = {"p_fail": 0.3, "nops": (1, 6), "p_trough": 0.5, "p_dist_alias": 0.35}
+    prof = {"p_fail": 0.3, "nops": (1, 6), "p_trough": 0.5, "p_dist_alias": 0.35, "p_same_name": 0.2}
     base = corpus_progs(ctx) + [G.gen_worklist_program(rng, prof) for _ in range(ctx.n(110))]
     progs = []
     for p in base:
@@ -564,7 +617,10 @@ def fn_partition_volume(ctx, res):
     for v, M in sorted(pairs):
         def call(v=v, M=M):
             out = partition_volume(float(v), max_volume=(int(M) if M.denominator == 1 and rng.random() < 0.5 else float(M)))
-            return "ok " + ",".join(proto.e_rat(F(float(x))) for x in out)
+            ans = "ok " + ",".join(proto.e_rat(F(float(x))) for x in out)
+            while out:
+                out.pop()         # the caller works the steps off; the list is the caller's
+            return ans
         ans = guarded(call)
         msg = None
         if ans.startswith("ok"):
@@ -1054,6 +1110,7 @@ def run_C08(ctx):
     res.exhaustive = ctx.tier == "thorough"
     tcases, pcases, acases = [], [], []
     e = proto.e_str
+    long_lived_wl = {dev: impl.make_wl({"dev": dev, "max_volume": F(950)}) for dev in ("evo", "fluent")}
     for kind, R, C in geoms:
         if kind == "plate":
             L = impl.Labware("L", R, C, min_volume=0, max_volume=10)
@@ -1111,10 +1168,14 @@ def run_C08(ctx):
         for w in {G.wid(R - 1, C - 1), rng.choice(ids)}:
             for dev in ("evo", "fluent"):
                 def emit():
-                    wl = impl.make_wl({"dev": dev, "max_volume": F(950)})
+                    # ONE worklist per device outlives all the labware objects of this loop (each geometry's labware is
+                    # released when the next one is built, so object addresses are re-used): what a worklist remembers
+                    # about a labware must not be keyed by anything a later labware can share (id(), name "L")
+                    wl = long_lived_wl[dev]
+                    n0 = len(wl)
                     wl.dispense(L, w, 1.0)
                     L.remove(w, 1.0)
-                    recs = [r for r in wl if r.startswith("D;")]
+                    recs = [r for r in wl[n0:] if r.startswith("D;")]
                     assert len(recs) == 1, recs
                     return f"ok {int(recs[0].split(';')[4])}"
                 a = guarded(emit)
@@ -1123,6 +1184,22 @@ def run_C08(ctx):
                 m2 = None if a == f"ok {want}" else f"{dev} D; record for well {w} of {kind} {R}x{C}: position field {a}, expected {want}"
                 pcases.append({"line": f"{dev}_pos {gtok} {e(w)}", "impl": a,
                                "case": {"kind": "fn", "fn": dev + "_record_pos", "geom": [kind, R, C], "well": w}, "oracle": m2, "sig": f"C08:{dev}_record_pos"})
+    # labware objects that come and go while the worklist lives on: each plate is released before the next one (with
+    # another number of rows) is built, so CPython hands out the same address again; the same well ID is used on all
+    import gc
+    L = None
+    for k in range(ctx.n(80)):
+        R, C = rng.randint(2, 16), rng.randint(2, 6)
+        w = G.wid(1, 1)
+        dev = rng.choice(["evo", "fluent"])
+        L = None
+        gc.collect()
+        L = impl.Labware(f"stage{k}", R, C, min_volume=0, max_volume=10)
+        a = guarded(emit)
+        want = 1 + 1 * R + 1
+        m2 = None if a == f"ok {want}" else f"{dev} D; record for well {w} of plate {R}x{C} (labware object created after an earlier one was released): position field {a}, expected {want}"
+        pcases.append({"line": f"{dev}_pos {R} {C} ~ {e(w)}", "impl": a,
+                       "case": {"kind": "fn", "fn": dev + "_record_pos_lifetime", "geom": ["plate", R, C], "well": w}, "oracle": m2, "sig": f"C08:{dev}_record_pos"})
     for R in list(range(1, 27)) + [30, 40]:
         for C in ([1, 2, 12, 24, 99, 100] if ctx.tier == "quick" else list(range(1, 31)) + [99, 100, 120]):
             a1 = "ok " + ",".join(e(str(w)) for w in make_well_array(R, C).flatten())
